@@ -237,6 +237,9 @@ func readerBytes(c *explore.Ctx) {
 		run(nil)
 		for a := 0; a < 256; a++ {
 			run([]byte{byte(a)})
+			if rk.name != "bytes.Reader" && bytes.IndexByte(classBytes, byte(a)) < 0 {
+				continue // the other kinds of reader: second bytes only after a first byte of the class alphabet
+			}
 			for b := 0; b < 256; b++ {
 				run([]byte{byte(a), byte(b)})
 			}
@@ -1265,7 +1268,7 @@ func Spec() *explore.Spec {
 	return &explore.Spec{
 		ID: "C08",
 		Families: []*explore.Family{
-			{Name: "reader-bytes", ShardDepth: 4, Body: readerBytes, Doc: "every Reader method of the 3 protocols over 5 kinds of io.Reader (bytes.Reader, bytes.Buffer, bufio.Reader, one-byte reads, data delivered together with EOF) on all byte strings <=2 over all 256 values and <=5 (6; <=3 (4) for the kinds other than bytes.Reader) over a 16-byte class alphabet: no panic, bounded allocation, io.EOF exactly for empty input, no value out of fewer bytes than the value takes, and no proper prefix of an accepted input yields another value"},
+			{Name: "reader-bytes", ShardDepth: 4, Body: readerBytes, Doc: "every Reader method of the 3 protocols over 5 kinds of io.Reader (bytes.Reader, bytes.Buffer, bufio.Reader, one-byte reads, data delivered together with EOF) on all byte strings <=2 over all 256 values (for the kinds other than bytes.Reader the first of two bytes from the class alphabet) and <=5 (6; <=3 (4) for those other kinds) over a 16-byte class alphabet: no panic, bounded allocation, io.EOF exactly for empty input, no value out of fewer bytes than the value takes, and no proper prefix of an accepted input yields another value"},
 			{Name: "toplevel-truncations", ShardDepth: 2, Body: toplevelTruncations, Doc: "31 values that are not structs (every scalar kind, strings, binaries, lists, lists of lists, maps, sets; one struct as control) x 3 protocols x {Unmarshal, Decoder over 5 kinds of io.Reader}: the complete encoding decodes to the value, every proper prefix fails with an unexpected-EOF class error (io.EOF for the empty one), Unmarshal reports a trailing byte"},
 			{Name: "truncations", ShardDepth: 2, Body: truncations, Bound: func(string) int { return 1 }, Doc: "valid encodings (struct types of 1-2 fields x id layouts x values x 3 protocols): every prefix must fail with an unexpected-EOF class error (io.EOF for the empty prefix), a trailing byte must be reported, every (position x 256) corruption decodes without panic and within the allocation budget (also in strict mode)"},
 			{Name: "unknown-insertion", ShardDepth: 2, Body: unknownInsertion, Bound: func(string) int { return 1 }, Doc: "one unknown field (ids below/in a gap/above/64+ above the declared ids, 32767) of every thrift type with nested values (20 values, depth 2) inserted at every field boundary of the top-level and nested structs: decoded value unchanged, through Unmarshal and through a Decoder over one of 4 other kinds of io.Reader (bytes.Buffer, 16-byte bufio.Reader, one-byte reads, data delivered with EOF) in rotation"},
